@@ -1,10 +1,10 @@
 #!/bin/bash
-# background sweep: several seeds of the quick tier for every registered check (not part of MANIFEST)
+# sweep: several seeds of one tier for every registered check (not part of MANIFEST); evidence/replays go to scratch
 cd "$(dirname "$0")"; ./setup.sh >/dev/null 2>&1
-for s in ${SEEDS:-2 3 4 5}; do
-  for c in ${CHECKS:-C04 C05 C10 C11 C13 C14 C17 C18 C19 C20 C01}; do
-    VERIF_SEED=$s VERIF_WORKERS=${W:-8} ./check $c --tier ${TIER:-quick} > sweep_${c}_$s.log 2>&1
-    echo "seed=$s $c exit=$? $(grep -c 'key=None' sweep_${c}_$s.log) unclassified; $(grep "^\[$c\] tier" sweep_${c}_$s.log | cut -c1-160)"
-    mkdir -p sweep_replays; cp replays/${c}-*-s$s-*.json sweep_replays/ 2>/dev/null
+OUT=${OUT:-/var/tmp/sweep}; mkdir -p $OUT
+for s in ${SEEDS:-0 1 2 3}; do
+  for c in ${CHECKS:-C01 C02 C03 C04 C05 C06 C07 C08 C09 C10 C11 C12 C13 C14 C15 C16 C17 C18 C19 C20}; do
+    VERIF_SEED=$s VERIF_WORKERS=${W:-15} VERIF_OUT=$OUT ./check $c --tier ${TIER:-quick} > $OUT/${c}_${TIER:-quick}_$s.log 2>&1
+    echo "seed=$s $c exit=$? $(grep -c '^  violation' $OUT/${c}_${TIER:-quick}_$s.log) unlisted; $(grep "^\[$c\] tier" $OUT/${c}_${TIER:-quick}_$s.log | grep -o 'executed.*' | cut -c1-150)"
   done
 done
